@@ -727,6 +727,12 @@ aiff_ima_seek (SF_PRIVATE *psf, int mode, sf_count_t offset)
 		return PSF_SEEK_ERROR ;
 		} ;
 
+	/* A handle opened for writing has no decoder : refuse before anything is touched. */
+	if (pima->decode_block == NULL)
+	{	psf->error = SFE_BAD_SEEK ;
+		return PSF_SEEK_ERROR ;
+		} ;
+
 	if (offset == 0)
 	{	psf_fseek (psf, psf->dataoffset, SEEK_SET) ;
 		pima->blockcount = 0 ;
@@ -773,14 +779,15 @@ wavlike_ima_seek (SF_PRIVATE *psf, int mode, sf_count_t offset)
 		return PSF_SEEK_ERROR ;
 		} ;
 
+	/* A handle opened for writing has no decoder : refuse before anything is touched. */
+	if (pima->decode_block == NULL)
+	{	psf->error = SFE_BAD_SEEK ;
+		return PSF_SEEK_ERROR ;
+		} ;
+
 	if (offset == 0)
 	{	psf_fseek (psf, psf->dataoffset, SEEK_SET) ;
 		pima->blockcount = 0 ;
-		if (!pima->decode_block)
-		{	psf->error = SFE_BAD_SEEK ;
-			return PSF_SEEK_ERROR ;
-			} ;
-
 		pima->decode_block (psf, pima) ;
 		pima->samplecount = 0 ;
 		return 0 ;
